@@ -384,6 +384,97 @@ static void op_slice(void)
 	free(padded); free(y); free(line); vbi3_bit_slicer_delete(bs);
 }
 
+/* ---------------------------------------------------------------- public slicer API with caller-sized buffers
+   bslice <14 set_params fields> <sig> <shift> <trunc> <seed> <which: s|p> <buffer_size> <max_points> <claim> <ticks> [asan]
+   Calls vbi3_bit_slicer_slice() (s) or vbi3_bit_slicer_slice_with_points() (p) the way a direct API user does:
+   the output buffer has exactly buffer_size bytes, the points array exactly max_points elements.
+   First the call is made on oversized, canary filled arrays while *telling* the function the small sizes: that
+   measures how many bytes / points it really stores (wr, pw) without crashing.  If everything stays inside what the
+   caller supplied (or with the `asan` flag, unconditionally: the replay form of an overflow) the call is repeated
+   on exact-size heap allocations under ASan. */
+static char g_ref;   /* which size test refused: 'b' buffer_size, 'p' max_points, 0 none */
+static void log_ref(vbi_log_mask level, const char *context, const char *message, void *user_data)
+{
+	(void) level; (void) context; (void) user_data;
+	if (strstr(message, "buffer_size")) g_ref = 'b';
+	else if (strstr(message, "max_points")) g_ref = 'p';
+}
+
+struct pubctx { const vbi3_bit_slicer *bs; int with_points; unsigned bufsize, maxpoints; vbi3_bit_slicer_point *pts; unsigned np; };
+
+static int run_pub(struct pubctx *c, const uint8_t *raw, uint8_t *out)
+{
+	vbi3_bit_slicer bs = *c->bs;     /* fresh copy: thresh adapts */
+	bs.log.fn = log_ref; bs.log.mask = (vbi_log_mask) -1; bs.log.user_data = NULL;
+	g_ref = 0; c->np = 0;
+	if (c->with_points)
+		return vbi3_bit_slicer_slice_with_points(&bs, out, c->bufsize, c->pts, &c->np, c->maxpoints, raw);
+	return vbi3_bit_slicer_slice(&bs, out, c->bufsize, raw);
+}
+
+static void op_bslice(void)
+{
+	struct sp3 q; int i; long long shift, trunc, seed, bufsize, maxpoints; struct fmtinfo fi; vbi3_bit_slicer *bs;
+	unsigned bpp; size_t linelen, wr = 0, pw = 0, npts, k, ticks = 0; uint8_t *y, *line, *padded, *a, *b;
+	struct outcome oc; int force_asan, with_points, ret, ret2; char ref; unsigned np;
+	vbi3_bit_slicer_point *pa, *pb; struct pubctx c;
+	i = parse_sp3(1, &q, 1);
+	if (!i || (h_ntok != i + 9 && h_ntok != i + 10) || !NUM(i + 1, shift) || !NUM(i + 2, trunc) || !NUM(i + 3, seed)
+	    || !(H_IS(i + 4, "s") || H_IS(i + 4, "p")) || !NUMU(i + 5, bufsize) || !NUMU(i + 6, maxpoints)
+	    || bufsize > 100000 || maxpoints > 1000000) { printf("rej parse\n"); return; }
+	with_points = H_IS(i + 4, "p");
+	force_asan = H_IS(i + 9, "asan");
+	if (h_ntok == i + 10 && !force_asan) { printf("rej parse\n"); return; }
+	if (!(bs = configure3(&q))) return;
+	if (!fmt_info((int) q.fmt, &fi)) { printf("rej fmt\n"); vbi3_bit_slicer_delete(bs); return; }
+	bpp = bs->bytes_per_sample;
+	linelen = (size_t) q.spl * bpp;
+	y = (uint8_t *) malloc(q.spl ? q.spl : 1);
+	line = (uint8_t *) malloc(linelen ? linelen : 1);
+	if (!make_luma(y, (unsigned) q.spl, (unsigned) q.rate, h_tok[i], shift, trunc, (uint32_t) seed)) {
+		printf("rej parse\n"); free(y); free(line); vbi3_bit_slicer_delete(bs); return;
+	}
+	put_pixels(line, y, (unsigned) q.spl, &fi, bpp, (uint32_t) seed);
+	if (bs->cri_samples > 200000u
+	    || (bs->func == low_pass_bit_slicer_Y8 && (0 == bs->cri_samples || (0 == bs->payload && bs->endian <= 1)))) {
+		printf("ok wrapped\n");
+		free(y); free(line); vbi3_bit_slicer_delete(bs); return;
+	}
+	padded = (uint8_t *) calloc(1, linelen + PAD_BYTES + 4096);
+	memcpy(padded, line, linelen);
+	oc = probe3(bs, padded);
+	/* every CRI() invocation stores at most one point, every FRC / payload bit exactly one */
+	npts = (size_t) bs->cri_samples * 4 + bs->total_bits + 64;
+	a = (uint8_t *) malloc(OUTBUF); b = (uint8_t *) malloc(OUTBUF);
+	pa = (vbi3_bit_slicer_point *) malloc(npts * sizeof *pa); pb = (vbi3_bit_slicer_point *) malloc(npts * sizeof *pb);
+	memset(a, 0xA5, OUTBUF); memset(b, 0x5A, OUTBUF);
+	memset(pa, 0xA5, npts * sizeof *pa); memset(pb, 0x5A, npts * sizeof *pb);
+	c.bs = bs; c.with_points = with_points; c.bufsize = (unsigned) bufsize; c.maxpoints = (unsigned) maxpoints;
+	c.pts = pa; ret = run_pub(&c, padded, a); ref = g_ref; np = c.np;
+	c.pts = pb; ret2 = run_pub(&c, padded, b);
+	for (k = 0; k < OUTBUF; ++k) if (a[k] != 0xA5 || b[k] != 0x5A) wr = k + 1;
+	for (k = 0; k < npts; ++k) {
+		const uint8_t *u = (const uint8_t *) &pa[k], *v = (const uint8_t *) &pb[k]; size_t m; int touched = 0;
+		for (m = 0; m < sizeof *pa; ++m) if (u[m] != 0xA5 || v[m] != 0x5A) touched = 1;
+		if (touched) { pw = k + 1; if (pa[k].kind == VBI3_CRI_BIT) ++ticks; }
+	}
+	if (ret != ret2 || np != c.np) { printf("ok nondeterministic\n"); goto done; }
+	if ((wr <= (size_t) bufsize && pw <= (size_t) maxpoints) || force_asan) {
+		uint8_t *exact = (uint8_t *) malloc(linelen ? linelen : 1);
+		uint8_t *obuf = (uint8_t *) malloc(bufsize ? (size_t) bufsize : 1);
+		vbi3_bit_slicer_point *pts = (vbi3_bit_slicer_point *) malloc(maxpoints ? (size_t) maxpoints * sizeof *pts : 1);
+		memcpy(exact, line, linelen);
+		c.pts = pts;
+		/* the line itself is exact-size only if the slicer stays inside it (F7 is judged by the slice op) */
+		run_pub(&c, exact, obuf);
+		free(exact); free(obuf); free(pts);
+	}
+	printf("ok "); print_outcome(oc);
+	printf(" ref=%c ret=%d wr=%zu buf=%lld ticks=%zu np=%u pw=%zu mp=%lld\n", ref ? ref : '0', ret ? 1 : 0, wr, bufsize, ticks, np, pw, maxpoints);
+done:
+	free(a); free(b); free(pa); free(pb); free(padded); free(y); free(line); vbi3_bit_slicer_delete(bs);
+}
+
 static void op_params(void)
 {
 	struct sp3 q; vbi3_bit_slicer *bs; int i = parse_sp3(1, &q, 0);
@@ -411,9 +502,10 @@ static int configureL(const struct lp *q, vbi_bit_slicer *d)
 	    || q->bit_rate < 0 || q->bit_rate > 0x7FFFFFFF || q->cri_frc < 0 || q->cri_frc > 0xFFFFFFFFLL || q->cri_mask < 0 || q->cri_mask > 0xFFFFFFFFLL
 	    || q->cri_bits < 0 || q->frc_bits < 0 || q->payload < 0 || q->payload > 0x7FFFFFFF || q->modulation < 0 || q->modulation > 3
 	    || q->fmt < 0 || q->fmt > 1000 || q->cri_bits > 0x7FFFFFFF || q->frc_bits > 0x7FFFFFFF) { printf("rej parse\n"); return 0; }
-	/* shift counts of 32 - bits: only 1..32 is defined behaviour */
-	/* shift counts `32 - bits` and `cri_frc >> frc_bits`: only cri_bits 1..32, frc_bits 1..31 are defined behaviour */
-	if (q->cri_bits < 1 || q->cri_bits > 32 || q->frc_bits < 1 || q->frc_bits > 31 || q->payload > 32767) { printf("rej assert\n"); return 0; }
+	/* vbi_bit_slicer_init has no failure path.  Shift counts: the masks are built with `~0U >> (32 - bits)` only for
+	   bits > 0 (commit 592a23c), so cri_bits 0..32 and frc_bits 0 are defined behaviour; `cri_frc >> frc_bits` with
+	   frc_bits = 32 (permitted by the documentation when cri_bits = 0) is still a shift by the type width: refused here */
+	if (q->cri_bits > 32 || q->frc_bits > 31 || q->payload > 32767) { printf("rej assert\n"); return 0; }
 	if (q->cri_rate == 0 || q->bit_rate == 0) { printf("rej div0\n"); return 0; }
 	/* (int) of a double >= 2^31 is undefined: refuse what does not fit (never the case for real rates) */
 	if ((128 * q->rate) / q->cri_rate + (128 * q->rate) / q->bit_rate + 130 >= 0x7FFFFFFFLL
@@ -617,6 +709,7 @@ int main(void)
 		if (r == 2) continue;
 		if (H_IS(0, "params")) op_params();
 		else if (H_IS(0, "slice")) op_slice();
+		else if (H_IS(0, "bslice")) op_bslice();
 		else if (H_IS(0, "lparams")) op_lparams();
 		else if (H_IS(0, "lslice")) op_lslice();
 		else if (H_IS(0, "decode")) op_decode();
